@@ -5,6 +5,7 @@ package main
 import (
 	"errors"
 	"flag"
+	"os"
 	"strings"
 )
 
@@ -63,6 +64,8 @@ var (
 	verifFileInt, verifCmdInt      int
 	verifFileBool, verifCmdBool    bool
 	verifFlags                     map[string]interface{}
+	verifCfgPath                   string   // when set: the only configuration file that exists
+	verifCfgRead                   []string // the names ReadFile was asked for
 )
 
 func verifGetenv(key string) string {
@@ -74,8 +77,12 @@ func verifGetenv(key string) string {
 }
 
 func verifReadCfg(name string) ([]byte, error) {
+	verifCfgRead = append(verifCfgRead, name)
 	if !verifFileGiven {
 		return nil, errors.New("verif: no configuration file")
+	}
+	if verifCfgPath != "" && name != verifCfgPath {
+		return nil, errors.New("verif: no such file")
 	}
 	return []byte("configuration file"), nil
 }
@@ -178,6 +185,45 @@ func VerifOptionsPrecedence() {
 			want = verifCmdBool
 		}
 		verifAssert(*p == want, "boolean setting: command line, else file, else environment, else default")
+	}
+	verifReach("end")
+}
+
+// the configuration file is the one named by -config, wherever the pair stands on the command
+// line, and the default location otherwise; its values then take their documented place (here:
+// above the environment, for an integer, a string and a boolean key).
+func VerifOptionsConfigArg() {
+	verifK = verifKeys[[3]int{0, 17, 10}[verifCase(3)]]
+	verifEnvGiven, verifFileGiven, verifCmdGiven = true, true, false
+	verifFlags = map[string]interface{}{}
+	verifFileInt, verifFileBool = verifNondetInt(), verifNondetBool()
+	verifEnvStr = [3]string{"4242", "from-env", "true"}[verifK.kind]
+	verifCfgRead = nil
+	want := "/srv/vflow/my.conf"
+	switch verifSplit(5) {
+	case 0:
+		os.Args = []string{"vflow"}
+		want = "/etc/vflow/vflow.conf"
+	case 1:
+		os.Args = []string{"vflow", "-config", want}
+	case 2:
+		os.Args = []string{"vflow", "-verbose", "-config", want}
+	case 3:
+		os.Args = []string{"vflow", "-config", want, "-verbose"}
+	default:
+		os.Args = []string{"vflow", "-ipfix-port", "5000", "-config", want, "-sflow-port", "7000"}
+	}
+	verifCfgPath = want
+	o := NewOptions()
+	o.flagSet()
+	verifAssert(verifAll(len(verifCfgRead) == 1, verifCfgRead[0] == want), "the configuration file read is the one named by -config (default location otherwise)")
+	switch p := verifK.ptr(o).(type) {
+	case *int:
+		verifAssert(*p == verifFileInt, "integer setting from the named file (above the environment)")
+	case *string:
+		verifAssert(*p == "from-file", "string setting from the named file (above the environment)")
+	case *bool:
+		verifAssert(*p == verifFileBool, "boolean setting from the named file (above the environment)")
 	}
 	verifReach("end")
 }
